@@ -282,7 +282,7 @@ def dict_to_live_points(d, non_sampling_parameters=True):
         N = len(a[0])
     else:
         N = 1
-    if N == 1:
+    if not hasattr(a[0], "__len__"):
         if non_sampling_parameters:
             a = (*a, *config.livepoints.non_sampling_defaults)
         return np.array(
